@@ -58,7 +58,7 @@ theorem gateSkip_visible (cfg : CCfg) (A : CAtoms) (anc : List String) (id : Nat
     visible A id tag attrs = true := by
   unfold gateSkip at h
   simp only [Bool.or_eq_false_iff] at h
-  simpa using h.1.1.1.1
+  simpa using h.1.1.1.1.1
 
 /-- shape of the tag switch -/
 theorem tagSwitch_cases (A : CAtoms) (anc : List String) (hp : Bool)
